@@ -40,3 +40,46 @@ def _is_zero(x):
         return isinstance(x, (int, float)) and x == 0
     except Exception:
         return False
+
+
+def jc69_logspace(tree, tip_symbols, bl, root_split=(1.0, 0.0)):
+    """Independent oracle for large trees: log marginal likelihood of ONE alignment column under JC69 by pruning in LOG space (no underflow),
+    Python floats only.  tree: nested tuples of tip indices; tip_symbols[i] in 'ACGT'; every branch has length bl, the two branches below the
+    root have lengths bl*root_split[0] and bl*root_split[1] (an unrooted tree: only their sum matters for a reversible model)."""
+    import math
+    import sys
+    sys.setrecursionlimit(max(20000, sys.getrecursionlimit()))
+    NEG = float("-inf")
+
+    def logp(b):
+        e = math.exp(-4.0 * b / 3.0)
+        same, diff = 0.25 + 0.75 * e, 0.25 - 0.25 * e
+        return math.log(same), (math.log(diff) if diff > 0 else NEG)
+
+    def lse(xs):
+        m = max(xs)
+        if m == NEG:
+            return NEG
+        return m + math.log(sum(math.exp(x - m) for x in xs))
+
+    def up(child_vec, b):
+        ls, ld = logp(b)
+        return [lse([(ls if i == j else ld) + child_vec[j] for j in range(4)]) for i in range(4)]
+
+    def rec(node):
+        if not isinstance(node, tuple):
+            s = "ACGT".index(tip_symbols[node])
+            return [0.0 if i == s else NEG for i in range(4)]
+        l, r = rec(node[0]), rec(node[1])
+        return l, r
+
+    def prune(node, is_root=False):
+        if not isinstance(node, tuple):
+            s = "ACGT".index(tip_symbols[node])
+            return [0.0 if i == s else NEG for i in range(4)]
+        lv, rv = prune(node[0]), prune(node[1])
+        bl_l, bl_r = (bl * root_split[0], bl * root_split[1]) if is_root else (bl, bl)
+        a, b = up(lv, bl_l), up(rv, bl_r)
+        return [a[i] + b[i] for i in range(4)]
+    root = prune(tree, True)
+    return lse([math.log(0.25) + x for x in root])
